@@ -24,13 +24,15 @@ U = ("U1", "U2", "U3")
 def c01():
     if _q():
         plans = [dict(universe=u, variant="core", depth=2) for u in U] + [dict(universe="U5", variant="core", depth=5, emitidx=False, allpaths=5, allpaths_cap=150),
-                                                                              dict(universe="U6", variant="core", depth=14, emitidx=False, walks=1500)] + \
+                                                                              dict(universe="U6", variant="core", depth=14, emitidx=False, walks=1500),
+                                                                              dict(universe="U7", variant="extras", depth=4, emitidx=False)] + \
                 [dict(universe=u, variant="extras", depth=7, simulate=25, emitidx=False, fan_keep=0.1) for u in U]
         hs, keys, modes = (0, 1), ("plain",), ("compiled",)
     else:
         plans = [dict(universe=u, variant="core", depth=3, emitidx=False) for u in U] + [dict(universe="U4", variant="core", depth=5, emitidx=False)] + \
                 [dict(universe="U5", variant="core", depth=6, emitidx=False, allpaths=6, allpaths_cap=600), dict(universe="U4", variant="core", depth=4, emitidx=False, allpaths=4, allpaths_cap=40),
-                 dict(universe="U6", variant="core", depth=18, emitidx=False, walks=12000), dict(universe="U6", variant="extras", depth=18, emitidx=False, walks=6000)] + \
+                 dict(universe="U6", variant="core", depth=18, emitidx=False, walks=12000), dict(universe="U6", variant="extras", depth=18, emitidx=False, walks=6000),
+                 dict(universe="U7", variant="extras", depth=5, emitidx=False)] + \
                 [dict(universe=u, variant="extras", depth=12, simulate=150, emitidx=False, fan_keep=0.03) for u in U]
         hs, keys, modes = (0, 1), ("plain", "hostile"), ("compiled", "pure")
     v = me.run("C01", "model_checking",
@@ -46,12 +48,14 @@ def c01():
 @prop("C02")
 def c02():
     if _q():
-        plans = [dict(universe=u, variant="core", depth=2, emitidx=False) for u in U] + [dict(universe="U4", variant="faults", depth=3, emitidx=False)] + \
+        plans = [dict(universe=u, variant="core", depth=2, emitidx=False) for u in U] + [dict(universe="U4", variant="faults", depth=3, emitidx=False),
+                                                                                          dict(universe="U7", variant="all", depth=3, emitidx=False)] + \
                 [dict(universe=u, variant="extras", depth=7, simulate=25, emitidx=False, fan_keep=0.1) for u in U]
         hs = tuple(range(8))
         modes = ("compiled",)
     else:
-        plans = [dict(universe=u, variant="core", depth=3, emitidx=False) for u in U] + [dict(universe="U4", variant="faults", depth=4, emitidx=False)] + \
+        plans = [dict(universe=u, variant="core", depth=3, emitidx=False) for u in U] + [dict(universe="U4", variant="faults", depth=4, emitidx=False),
+                                                                                          dict(universe="U7", variant="all", depth=4, emitidx=False)] + \
                 [dict(universe=u, variant="extras", depth=12, simulate=100, emitidx=False, fan_keep=0.03) for u in U]
         hs = tuple(range(16))
         modes = ("compiled", "pure")
@@ -72,12 +76,14 @@ def c02():
 def c03():
     if _q():
         plans = [dict(universe=u, variant="extras", depth=2) for u in U] + [dict(universe="U4", variant="extras", depth=3)] + \
-                [dict(universe="U5", variant="extras", depth=5, allpaths=4, allpaths_cap=20), dict(universe="U6", variant="extras", depth=12, walks=800)] + \
+                [dict(universe="U5", variant="extras", depth=5, allpaths=4, allpaths_cap=20), dict(universe="U6", variant="extras", depth=12, walks=800),
+                 dict(universe="U7", variant="extras", depth=3)] + \
                 [dict(universe=u, variant="extras", depth=7, simulate=25, fan_keep=0.1) for u in U]
         hs, modes = (0,), ("compiled",)
     else:
         plans = [dict(universe=u, variant="extras", depth=3) for u in U] + [dict(universe="U4", variant="extras", depth=4)] + \
-                [dict(universe="U5", variant="extras", depth=6, allpaths=5, allpaths_cap=60), dict(universe="U6", variant="extras", depth=16, walks=8000)] + \
+                [dict(universe="U5", variant="extras", depth=6, allpaths=5, allpaths_cap=60), dict(universe="U6", variant="extras", depth=16, walks=8000),
+                 dict(universe="U7", variant="extras", depth=4)] + \
                 [dict(universe=u, variant="extras", depth=12, simulate=100, fan_keep=0.03) for u in U]
         hs, modes = (0, 1), ("compiled", "pure")
     v = me.run("C03", "model_checking",
@@ -95,12 +101,12 @@ def c03():
 def c17():
     if _q():
         plans = [dict(universe=u, variant="extras", depth=2) for u in U] + [dict(universe="U4", variant="extras", depth=3)] + \
-                [dict(universe="U5", variant="all", depth=4), dict(universe="U6", variant="all", depth=10, walks=600)] + \
+                [dict(universe="U5", variant="all", depth=4), dict(universe="U6", variant="all", depth=10, walks=600), dict(universe="U7", variant="all", depth=3)] + \
                 [dict(universe=u, variant="extras", depth=7, simulate=25, fan_keep=0.1) for u in U]
         modes = ("compiled",)
     else:
         plans = [dict(universe=u, variant="extras", depth=3) for u in U] + [dict(universe="U4", variant="extras", depth=4)] + \
-                [dict(universe="U5", variant="all", depth=5), dict(universe="U6", variant="all", depth=14, walks=6000)] + \
+                [dict(universe="U5", variant="all", depth=5), dict(universe="U6", variant="all", depth=14, walks=6000), dict(universe="U7", variant="all", depth=4)] + \
                 [dict(universe=u, variant="extras", depth=12, simulate=100, fan_keep=0.03) for u in U]
         modes = ("compiled", "pure")
     return me.run("C17", "model_checking",
@@ -115,11 +121,13 @@ def c17():
 @prop("C18")
 def c18():
     if _q():
-        plans = [dict(universe="U1", variant="faults", depth=2, emitidx=False), dict(universe="U4", variant="faults", depth=3, emitidx=False)] + \
+        plans = [dict(universe="U1", variant="faults", depth=2, emitidx=False), dict(universe="U4", variant="faults", depth=3, emitidx=False),
+                 dict(universe="U7", variant="all", depth=4, emitidx=False)] + \
                 [dict(universe=u, variant="faults", depth=5, simulate=12, emitidx=False, fan_keep=0.15) for u in U]
         modes = ("compiled",)
     else:
-        plans = [dict(universe=u, variant="faults", depth=2, emitidx=False) for u in U] + [dict(universe="U4", variant="faults", depth=4, emitidx=False)] + \
+        plans = [dict(universe=u, variant="faults", depth=2, emitidx=False) for u in U] + [dict(universe="U4", variant="faults", depth=4, emitidx=False),
+                                                                                            dict(universe="U7", variant="all", depth=5, emitidx=False)] + \
                 [dict(universe=u, variant="all", depth=9, simulate=100, emitidx=False, fan_keep=0.05) for u in U]
         modes = ("compiled", "pure")
     return me.run("C18", "fault_enumeration",
@@ -177,6 +185,12 @@ def c12():
     # keys as numpy hands them out (np.int64 list positions, np.str_ names): a round trip must not turn them into other objects
     v = me.run("C12", "model_checking", "", [dict(universe="U2", variant="xfer", depth=2 if _q() else 3, emitidx=False)], tags=["C12"], keys=("numpy",), modes=modes[:1],
                hashseeds=(0,), queries=False, finish=False, loops=("pickle_copy", "pickle_orig"), nloops=2, verdict=v)
+    # the manager's default container (mgr.ref() without a container: xdeps.utils.AttrDict, attributes and items are one storage): locations assigned through
+    # attribute references are read back as items and vice versa, on both sides of every round trip
+    v = me.run("C12", "model_checking", "", [dict(universe="U3", variant="xfer", depth=2 if _q() else 3, emitidx=False)], tags=["C12"], keys=("attrdict",), modes=modes[:1],
+               hashseeds=(0,), queries=False, finish=False, loops=("pickle_copy", "pickle_orig"), nloops=2, verdict=v)
+    v.cov["rule"] += " || default container: universe U3 bound to the AttrDict that Manager.ref() creates by default, half of the locations assigned through attribute " \
+                     "references and read as items, half the other way round, pickle inserted before every edge"
     v.cov["rule"] += " || second stage, Expr.tla: every expression TLC builds (every node class: binary, unary, literal, builtin with and without parameters, " \
                      "call with kwargs, nested item/attribute refs, computed keys) is pickled and restored on its own: same structure, same value"
     return ee.run("C12", "model_checking", "", _expr_plans(_q())[:2] if _q() else _expr_plans(False), tags=["C12"], modes=modes, hashseeds=(0,), verdict=v)
